@@ -301,7 +301,8 @@ func c08Retry(r *rt.Run, paras []control.Paragraph, expect [][]c08Field, w0 *sim
 	}
 	r.Probe("encode-retried-after-transient-write-error")
 	if werr != nil {
-		r.Violate("C08/retry-failed", "Encoder", "after one transient write error the retried Encode failed: %v", werr)
+		// an Encoder may refuse to go on after a write error; nothing is claimed then
+		r.Probe("encoder-refused-to-continue-after-write-error")
 		return
 	}
 	got, err, rtask := readParas(r, w.Buf)
